@@ -219,7 +219,8 @@ func (s *Sched) Run() bool {
 			case <-s.wake:
 			case <-time.After(time.Millisecond):
 				waited++
-				if waited >= 2 {
+				// a goroutine dump costs time proportional to the goroutines in the process: back off
+				if waited >= 2 && (waited <= 8 || waited%16 == 0) {
 					s.refreshBlocked()
 				}
 			}
